@@ -204,6 +204,8 @@ pub enum Op
     XBc(u8, u32),
     XEEv(u8, u8, u32),
     XSysEv(u8, u32),
+    /// `World::trigger_resource_mutation` from a closure with `&mut World`
+    XRes(u8),
     /// immediate calls from the body of an exclusive system: `SystemCommand::apply(world)`, `World::send_system_event`,
     /// `World::broadcast`, `World::entity_event` (they run at once, nested in the body)
     IRun(u8),
@@ -269,6 +271,7 @@ impl Op
             "xbc" => Op::XBc(n8(1), n32(2)),
             "xeev" => Op::XEEv(n8(1), n8(2), n32(3)),
             "xsysev" => Op::XSysEv(n8(1), n32(2)),
+            "xres" => Op::XRes(n8(1)),
             "irun" => Op::IRun(n8(1)),
             "isysev" => Op::ISysEv(n8(1), n32(2)),
             "ibc" => Op::IBc(n8(1), n32(2)),
@@ -320,6 +323,7 @@ impl Op
             Op::XBc(t, p) => json!(["xbc", t, p]),
             Op::XEEv(e, t, p) => json!(["xeev", e, t, p]),
             Op::XSysEv(s, p) => json!(["xsysev", s, p]),
+            Op::XRes(r) => json!(["xres", r]),
             Op::IRun(s) => json!(["irun", s]),
             Op::ISysEv(s, p) => json!(["isysev", s, p]),
             Op::IBc(t, p) => json!(["ibc", t, p]),
